@@ -164,7 +164,7 @@ func main() {
 		}
 		rs := simrt.Mix(base, uint64(idx))
 		t := simrt.NewTape(rs)
-		rc := &core.RunCtx{T: t, Tier: *tier, Config: *config, Idx: idx, Seed: *seed, Race: *race}
+		rc := &core.RunCtx{T: t, Tier: *tier, Config: *config, Idx: idx, Seed: *seed, Race: *race, Prop: *prop}
 		res := h.Run(rc)
 		recorded := t.Recorded() // before any shrinking reuses the tape buffer
 		agg.Runs++
@@ -365,7 +365,7 @@ func doReplay(path string, race bool, verbose bool) int {
 		return simrt.InfraExit
 	}
 	fmt.Printf("SEED replay harness=%s config=%s seed=%d run=%d tape_len=%d\n", rp.Harness, rp.Config, rp.Seed, rp.Idx, len(rp.Tape))
-	rc := &core.RunCtx{Tier: rp.Tier, Config: rp.Config, Idx: rp.Idx, Seed: rp.Seed, Race: race, Replay: true}
+	rc := &core.RunCtx{Tier: rp.Tier, Config: rp.Config, Idx: rp.Idx, Seed: rp.Seed, Race: race, Replay: true, Prop: rp.Property}
 	res, v, _ := runTape(h, rc, rp.Tape, rp.Violation.Class())
 	if verbose {
 		for _, l := range res.Trace {
@@ -378,7 +378,7 @@ func doReplay(path string, race bool, verbose bool) int {
 		base := simrt.Mix(rp.Seed, hstr(rp.Harness), hstr(rp.Config))
 		n := 0
 		for idx := rp.HistFrom; idx < rp.Idx; idx += rp.HistStride {
-			hrc := &core.RunCtx{T: simrt.NewTape(simrt.Mix(base, uint64(idx))), Tier: rp.Tier, Config: rp.Config, Idx: idx, Seed: rp.Seed, Race: race}
+			hrc := &core.RunCtx{T: simrt.NewTape(simrt.Mix(base, uint64(idx))), Tier: rp.Tier, Config: rp.Config, Idx: idx, Seed: rp.Seed, Race: race, Prop: rp.Property}
 			h.Run(hrc)
 			n++
 		}
